@@ -52,7 +52,7 @@ Definition pendb (vm0 : vamm) (e0 : env) (v0 t0 : addr) (w : world) (m : msg) (i
     price_boundaries vm e0 = price_boundaries vm0 e0 /\
     (((id = INCREASE_ID \/ id = DECREASE_ID) /\ exists d q l, m = MSwapInput v0 d q l false /\ 0 <= q) \/
      (id = REVERSE_ID /\ (exists d b l, m = MSwapOutput v0 d b l /\ 0 <= b) /\ stable vm e0 /\
-        exists tm, e_tmp (w_eng w) = Some tm /\ ts_vamm tm = v0 /\ ts_trader tm = t0 /\ 0 < ts_leverage tm)).
+        exists tm, e_tmp (w_eng w) = Some tm /\ ts_vamm tm = v0 /\ ts_trader tm = t0)).
 
 Fixpoint readyb (vm0 : vamm) (e0 : env) (v0 t0 : addr) (w : world) (subs : list submsg) : Prop :=
   match subs with
@@ -84,18 +84,20 @@ Proof. intros H. rewrite <- (app_nil_r l). rewrite readyb_leafy_app by assumptio
 (* the reversal's first reply: either nothing is re-opened and the stored position is empty, or the fee
    messages are followed by a swap_input of a non-negative amount that may not go over the band *)
 Lemma reverse_position_reply_reopen w i o w' subs tm :
-  reverse_position_reply w i o = Ok (w', subs) -> e_tmp (w_eng w) = Some tm -> 0 < ts_leverage tm ->
+  reverse_position_reply w i o = Ok (w', subs) -> e_tmp (w_eng w) = Some tm ->
   w_vamms w' = w_vamms w /\ w_env w' = w_env w /\
   ((Forall leafy subs /\ sval (p_size (read_position (w_eng w') (ts_vamm tm) (ts_trader tm))) = 0) \/
-   exists fees q, Forall leafy fees /\ subs = fees ++ [internal_increase_position (ts_vamm tm) (ts_side tm) q 0] /\ 0 <= q).
+   exists fees q, Forall leafy fees /\ subs = fees ++ [internal_increase_position (ts_vamm tm) (ts_side tm) q 0] /\ 0 <= q /\
+     exists tm', e_tmp (w_eng w') = Some tm' /\ ts_vamm tm' = ts_vamm tm /\ ts_trader tm' = ts_trader tm).
 Proof.
-  intros H Htmp Hlev. unfold reverse_position_reply, need_tmp in H. rewrite Htmp in H. cbn [bind] in H.
+  intros H Htmp. unfold reverse_position_reply, need_tmp in H. rewrite Htmp in H. cbn [bind] in H.
   arm H.
   all: split; [reflexivity|split; [reflexivity|]].
   all: first
     [ left; split; [leafy_goal|];
       cbn [w_eng set_eng]; unfold read_position; rewrite ?find_set_state, ?find_set_sent, ?find_set_tmp, find_store_same; reflexivity
-    | right; do 2 eexists; split; [|split; [reflexivity|]]; [leafy_goal|]; arith_ok; subst; lia ].
+    | right; do 2 eexists; split; [|split; [reflexivity|split]]; [leafy_goal| arith_ok; subst; lia |];
+      eexists; cbn [w_eng set_eng e_tmp eng_set_state eng_set_sent eng_set_tmp]; split; [reflexivity|split; reflexivity] ].
 Qed.
 
 Lemma update_position_reply_vamms w i o id w' subs : update_position_reply w i o id = Ok (w', subs) ->
@@ -110,7 +112,7 @@ Lemma pair_band vm0 e0 v0 t0 w m id w1 ev w2 subs :
 Proof.
   intros (Henv & vm & Hz & Hwf & Hfl & Hpb & Hcase) Hex Hre.
   unfold contract_reply, engine_reply in Hre. rewrite Z.eqb_refl in Hre.
-  destruct Hcase as [(Hid & d & q & l & -> & Hq) | (-> & (d & b & l & -> & Hb) & Hst & tm & Htmp & Hv & Ht & Hlev)].
+  destruct Hcase as [(Hid & d & q & l & -> & Hq) | (-> & (d & b & l & -> & Hb) & Hst & tm & Htmp & Hv & Ht)].
   - (* a swap_input that may not go over the band, then the increase / reduce reply *)
     apply exec_swap_input in Hex. destruct Hex as (vm1 & vm' & qa & ba & Hz1 & Hsw & -> & ->).
     rewrite Hz in Hz1. injection Hz1 as <-. rewrite Henv in Hsw.
@@ -132,8 +134,8 @@ Proof.
     change (REVERSE_ID =? REVERSE_ID) with true in Hre. cbn iota in Hre.
     pose proof (swap_output_boundaries _ _ _ _ _ _ _ _ _ Hsw Hst) as [Hpb' Hst'].
     pose proof (swap_output_c01 _ _ _ _ _ _ _ _ _ Hwf Hb Hsw) as (Hwf' & _ & _ & Hvc & _).
-    eapply reverse_position_reply_reopen in Hre; [|cbn [w_eng set_vamm]; exact Htmp|exact Hlev].
-    destruct Hre as (Ev & Ee & [[Hl Hsz] | (fees & q & Hl & -> & Hq)]).
+    eapply reverse_position_reply_reopen in Hre; [|cbn [w_eng set_vamm]; exact Htmp].
+    destruct Hre as (Ev & Ee & [[Hl Hsz] | (fees & q & Hl & -> & Hq & _)]).
     + apply readyb_leafy; [exact Hl|]. right. rewrite Hv, Ht in Hsz. exact Hsz.
     + apply readyb_leafy_app; [exact Hl|].
       cbn [readyb internal_increase_position swap_input_msg sm_reply wants_ok sm_msg sm_id].
@@ -225,8 +227,7 @@ Proof.
              cbn [internal_increase_position swap_input_msg swap_output_msg sm_msg] in Hm0; try discriminate Hm0;
              injection Hm0 as _ <-;
              (unfold get_position; match goal with |- context [find_position ?e0 ?v1 ?t1] => destruct (find_position e0 v1 t1) as [p0|] eqn:Ef end; [exact (Hpos _ eq_refl)|cbn; lia]) end.
-    + split; [exact Hst|]. exists tm. split; [exact Htm|]. split; [exact Hv|]. split; [exact Ht|].
-      rewrite Hlev. unfold e_open_position in H. arm H. zb. lia.
+    + split; [exact Hst|]. exists tm. split; [exact Htm|]. split; [exact Hv|]. exact Ht.
 Qed.
 
 Theorem open_position_ends_in_band f w t v s m l lim funds w' vm0 :
